@@ -174,6 +174,11 @@ func (r *prun) violate(rule, kind, cond, detail string) {
 		// hand-off was reported successful, is C19's "lost or misdirected message" as well
 		props = []string{"C18", "C19"}
 	}
+	if rule == "P.unanswered" || (rule == "P.done_once" && cond == "dones=0") {
+		// a hand-off the transport never completes keeps the dispatcher waiting for ever: no later task is
+		// dispatched, which is C11's "transport failures delay this but never prevent it"
+		props = []string{"C18", "C11"}
+	}
 	r.viol = append(r.viol, &k.Violation{Rule: rule, Props: props, Kind: kind, Cond: cond, Detail: detail, Step: r.stepNo})
 	if rule == "panic" {
 		r.logf("VIOLATION %s %s", rule, cond) // stacks carry addresses
